@@ -233,7 +233,7 @@ var (
 	tokStringRule = regexpRule(
 		`^"(?:[^\\"]|`+ // non-escape sequences
 			`\\(?:`+
-			`[abfnrtv\\"]|`+ // standard escapes
+			`[abfnrtv\\"/]|`+ // standard escapes, including json's \/
 			`[0-7]{3}|`+ // octal-encoded ascii
 			`x[[:xdigit:]]{2}|`+ // one-byte unicode
 			`u[[:xdigit:]]{4}|`+ // two-byte unicode
